@@ -282,6 +282,13 @@ def _cat() -> List[Edit]:
         E("C18", "model-int-accepts-bool-again", "options.py", "        if isinstance(data, int) and not isinstance(data, bool):", "        if isinstance(data, int):", "BREAK", "rejects::int-given-bool"),
         E("C18", "model-recursion-check-dropped", "options.py", "    if path in seen_paths:\n        raise InvalidConfigOption(\"Recursive config inclusion detected\")\n", "", "BREAK", "rejects::recursive-inclusion"),
         E("C18", "keep-model-sort-key-lambda-to-method", "options.py", "            name: sorted(instances, key=lambda i: i.sort_key())", "            name: sorted(instances, key=lambda inst: inst.sort_key())", "KEEP"),
+        E("C17", "model-mixed-numbering-unreported", "implementation.py", "    if uses_automatic_numbering and uses_manual_numbering:", "    if False:", "BREAK", "cannot switch from"),
+        E("C17", "model-empty-index-accepted", "format_strings.py", "                if not index_string:\n                    state.add_error(\"empty index in format string\")\n                    return \"\"\n", "", "BREAK", "Empty attribute"),
+        E("C17", "model-lone-close-brace-accepted", "format_strings.py", "                state.add_error(\"single '}' encountered in format string\")", "                current_literal.append(\"}\")", "BREAK", "Single '}'"),
+        E("C17", "model-out-of-range-index-unreported", "implementation.py", "            if index >= len(args):", "            if index > len(args):", "BREAK", "reported-when-cpython-raises::IndexError"),
+        E("C17", "model-missing-keyword-unreported", "implementation.py", "            if field.arg_name not in kwargs:", "            if False:", "BREAK", "reported-when-cpython-raises::KeyError"),
+        E("C17", "model-escape-braces-reported", "format_strings.py", "            if next_char == \"{\":\n                state.next()\n                current_literal.append(\"{\")\n            else:", "            if False:\n                pass\n            else:", "BREAK", "format-model::"),
+        E("C17", "keep-model-parser-local-rename", "format_strings.py", "arg_name_chars", "field_name_chars", "KEEPALL"),
         E("C16", "keep-reversed-sorted", "node_visitor.py", "lines_to_remove = sorted(lines_to_remove, reverse=True)", "lines_to_remove = list(reversed(sorted(lines_to_remove)))", "KEEP"),
         E("C17", "keep-regex-class-order", "format_strings.py", "(?P<conversion_type>[diouxXeEfFgGcrs%ba])", "(?P<conversion_type>[abcdeEfFgGiorsuxX%])", "KEEP"),
         E("C18", "keep-sort-key-via-locals", "options.py", "        return (\n            not self.from_command_line,  # command line options first\n            self.priority,  # lower priority number first\n            -len(self.applicable_to),  # longest options first\n        )", "        return (\n            not self.from_command_line,\n            self.priority,\n            -len(self.applicable_to),\n        )", "KEEP"),
